@@ -41,6 +41,26 @@ func init() {
 		RequiredFired:  []string{"err", "err_before_Sync", "err_after_Sync", "err_after_CommitState", "err_before_CommitState", "err_before_WriteAt", "err_short_write", "err_before_Create", "err_before_Delete"},
 		QuickS:         50, ThoroughS: 900,
 	}
+	propSpecs["C06"] = &PropSpec{
+		ID: "C06",
+		Rule: "each run = one writer task executing 7-40 operations (appends with rotation, head / tail / full truncation, re-append of different content at the truncated indexes, base-index resets after emptying) and 1-4 reader tasks issuing GetLog / FirstIndex / LastIndex (indexes drawn at both edges, inside, just outside and in the previous generation); the scheduler picks the next task from the tape at every seam call (each ReadAt / WriteAt / Sync / CommitState / Create / Delete) and hook point (after each closed-check, between state load and refcount acquire, after the state store, offsets-published-but-unwritten, before every lock and channel wait). " +
+			"The history (invoke/return stamped with the global event sequence; an append's invocation is the event at which its fsync returned) is checked by a direct interval oracle (each read's result must hold in a log state current during its interval; an entry present throughout must be returned intact; a non-not-found error only for an index a truncation removed during the read) and by porcupine v1.3.0 against the log model. " +
+			"Non-trivial = at least one read overlapped a writer operation; distinct = distinct interleaving hashes (sequence of (task, point) at decisions with >= 2 runnable tasks).",
+		Components:     compA + "; linearizability checker: porcupine v1.3.0",
+		Assumptions:    []string{"data-race freedom is not decided by this check (see DESIGN.md section 10: the race detector needs an edge-free scheduler hand-off, not built)", "histories are bounded (<= ~120 operations) so porcupine terminates; Unknown verdicts are counted, never reported"},
+		RequiredProbes: []string{"reads_overlapping_a_write", "porcupine_ok", "history_ops", "truncations"},
+		QuickS:         50, ThoroughS: 900,
+	}
+	propSpecs["C14"] = &PropSpec{
+		ID: "C14",
+		Rule: "each run = a seeded WAL with 1-4 batches (so several segments exist and a rotation may be pending), then a tape-chosen set of racing tasks - an appender (2-6 batches), 0-3 readers (GetLog/FirstIndex/LastIndex), a stable-store client - and the closer, which calls Close after a tape-chosen number of scheduling steps; the scheduler orders Close's flag swap, lock acquisition, state swap and finalizer against every other task's hook points (after each closed-check, between state load and reference, before each lock / rotation wait) and seam calls. " +
+			"Oracles: every racing call returns ErrClosed or a result correct for the model (acknowledged appends durable after the next Open); no panic; no deadlock / step overrun; after Close every method returns ErrClosed, a second Close is a no-op without seam calls, the rotation goroutine has exited, open handles reach zero, the MetaStore was closed exactly once. " +
+			"Non-trivial = Close overlapped at least one in-flight call; distinct = distinct interleaving hashes.",
+		Components:     compA,
+		Assumptions:    []string{"data races are not decided here (DESIGN.md section 10)"},
+		RequiredProbes: []string{"close_races", "racing_calls_got_errclosed", "protected_entries_checked"},
+		QuickS:         45, ThoroughS: 600,
+	}
 	propSpecs["C09"] = &PropSpec{
 		ID: "C09",
 		Rule: "runs = 60% fault-free programs (appends with every padding residue and batch shape, rotation at segment sizes 64B-64KiB, head/tail/full truncations, reopens, quiesce points) and 40% crash/re-append histories of the C01 generator; at every quiescent point and after every Open each segment file named by committed metadata is decoded by the README-only decoder (CRC verified per batch), re-encoded by the README-only encoder and compared byte-for-byte up to its last commit; header vs file name vs metadata; 8-byte alignment; live entry payloads vs the model's encodings; sealed: index frame offsets == entry frame offsets and IndexStart == index payload offset; crash-free histories: commit frames exactly at acknowledged batch boundaries. " +
